@@ -153,7 +153,12 @@ def merge_results(parts: Iterable[Dict[str, Any]]) -> Dict[str, Any]:
         out["inconclusive"].extend(p.get("inconclusive", []))
         for k, v in p.get("extra", {}).items():
             if isinstance(v, (int, float)) and not isinstance(v, bool):
-                out["extra"][k] = out["extra"].get(k, 0) + v
+                if k.startswith("max_"):
+                    out["extra"][k] = max(out["extra"].get(k, v), v)
+                elif k.startswith("const_"):
+                    out["extra"][k] = v
+                else:
+                    out["extra"][k] = out["extra"].get(k, 0) + v
             elif isinstance(v, list):
                 out["extra"].setdefault(k, [])
                 if len(out["extra"][k]) < 50:
